@@ -122,6 +122,11 @@ def strategy(tier):
         # the application's disconnect handler of one namespace raises when
         # the transport is lost: the reconnection effort starts all the same
         'dhf': st.one_of(st.none(), st.none(), st.integers(0, 2)),
+        # an earlier life of the same client object: connected, ended by
+        # the server (DISCONNECT of every namespace; 'raise': one of the
+        # application's disconnect handlers fails) - nothing of it may
+        # change what the judged connection does
+        'prior_life': st.sampled_from([None, None, 'clean', 'raise']),
         # the application's connect_error handler raises at its j-th
         # invocation during the effort: that attempt has failed all the same
         'cehf': st.one_of(st.none(), st.none(), st.integers(1, 4)),
@@ -564,9 +569,35 @@ def _run(case, h):
         return n_exp, how
 
     # =====================================================================
+    n_prior = 0
+    if case.get('prior_life'):
+        connect_manual()
+        if case['prior_life'] == 'raise':
+            dhf_state['on'] = True
+            prior_dhf = case.get('dhf')
+            case = dict(case, dhf=0 if prior_dhf is None else prior_dhf)
+        for n in nss:
+            for f in wire.frames(wire.DISCONNECT, n):
+                h.deliver(f)
+        if aio:
+            h.loop.run_until_idle()
+        if dhf_state['on']:
+            dhf_state['on'] = False
+            dhf_state['hit'] = False
+            case = dict(case, dhf=prior_dhf)
+        h.swallowed[:] = []
+        h.bg_errors[:] = []
+        if sio.connected or h.eio.state == 'connected':
+            raise Violation('connected-after-server-disconnect', '')
+        if effort_count():
+            raise Violation('effort-after-intentional-end', 'earlier life')
+        n_prior = len(h.attempts)
+        del log[:]
+        reader.read(h.take_msgs())
+        labels['earlier_life_' + case['prior_life']] = True
     connect_manual()
     n0 = len(h.attempts)
-    if n0 != 1:
+    if n0 - n_prior != 1:
         raise Violation('initial-attempts', repr(h.attempts))
     e0 = effort_count()
     cause = case['cause']
